@@ -242,12 +242,104 @@ def exact_qmaps(run, n_cases):
     return cases, failing, impl_fail
 
 
+
+# ---------------------------------------------------------------- weighted layer: survival probabilities other than 1
+PRE_W = """From Coq Require Import List Bool ZArith QArith String.
+From Cheetah Require Import Base.Mat Beam.Moments Beam.WMoments Beam.MomQ Beam.MomWQ.
+Import ListNotations. Open Scope string_scope. Open Scope Z_scope."""
+W_TOL = Fraction(1, 2 ** 30)
+
+
+def observe_w(m, ps, ws, E, q):
+    import cheetah
+    el = cheetah.CustomTransferMap(torch.tensor(m, dtype=DT), length=torch.tensor(0.5, dtype=DT), name="ctm")
+    pb = cheetah.ParticleBeam(torch.tensor(ps, dtype=DT), torch.tensor(float(E), dtype=DT),
+                              particle_charges=torch.tensor(q, dtype=DT), survival_probabilities=torch.tensor(ws, dtype=DT), dtype=DT)
+    mu_in, cov_in = moments_impl(pb)
+    qb = cheetah.ParameterBeam(mu_in, cov_in, pb.energy, total_charge=pb.total_charge, dtype=DT)
+    op, oq = el.track(pb), el.track(qb)
+    mu_p, cov_p = moments_impl(op)
+    return {"mu_in": mu_in.tolist(), "cov_in": cov_in.tolist(), "mu_part": mu_p.tolist(), "cov_part": cov_p.tolist(),
+            "mu_param": oq._mu.tolist(), "cov_param": oq._cov.tolist(), "E": [float(op.energy), float(oq.energy)],
+            "Q": [float(op.total_charge), float(oq.total_charge)], "surv_out": op.survival_probabilities.tolist()}
+
+
+def w_oracle(obs, ws):
+    """the property on the implementation alone: weighted moments of the tracked particles vs the tracked ParameterBeam"""
+    bad = []
+    tol = float(W_TOL)
+    for a, b in zip(obs["mu_part"], obs["mu_param"]):
+        if not abs(a - b) <= tol * (1 + abs(a) + abs(b)):
+            bad.append("mean")
+            break
+    if any(not abs(a - b) <= tol * (1 + abs(a) + abs(b)) for ra, rb in zip(obs["cov_part"], obs["cov_param"]) for a, b in zip(ra, rb)):
+        bad.append("cov")
+    if obs["E"][0] != obs["E"][1]:
+        bad.append("energy")
+    if obs["Q"][0] != obs["Q"][1]:
+        bad.append("total_charge")
+    if obs["surv_out"] != ws:
+        bad.append("survival_changed_by_a_linear_element")
+    return bad
+
+
+def exact_wmaps(run, n_cases):
+    cases, terms, impl_fail = [], [], []
+    for _ in range(n_cases):
+        n = run.rng.choice([3, 4, 5, 6, 7, 8])
+        k = run.rng.choice([0, 1, 3])
+        ips = gen_int_particles(run.rng, n, amp=run.rng.choice([2, 5, 9]))
+        ps = [[float(Fraction(v, 2 ** k)) for v in p[:6]] + [1.0] for p in ips]
+        m = gen_dyadic_map(run.rng)
+        E = run.rng.choice([5e6, 1e8])
+        q = [run.rng.choice([0.0, 1.0, 2.0]) for _ in range(n)]
+        style = run.rng.choice(["dyadic", "dyadic", "lost_some", "uniform_half", "random"])
+        if style == "dyadic":
+            ws = [run.rng.choice([1.0, 0.5, 0.25, 0.75, 0.125]) for _ in range(n)]
+        elif style == "lost_some":
+            ws = [run.rng.choice([1.0, 1.0, 0.0]) for _ in range(n)]
+        elif style == "uniform_half":
+            ws = [0.5] * n
+        else:
+            ws = [round(run.rng.random(), 6) for _ in range(n)]
+        if sum(1 for w in ws if w > 0) < 2:
+            ws[0], ws[1] = 1.0, 0.5      # correction factor 0 (a single surviving particle): the code divides by zero, unspecified
+        obs = observe_w(m, ps, ws, E, q)
+        flat = obs["mu_part"] + [x for r in obs["cov_part"] for x in r] + obs["mu_param"] + [x for r in obs["cov_param"] for x in r]
+        if not all(math.isfinite(x) for x in flat):
+            run.count("wmap_nonfinite_" + style)
+            impl_fail.append(len(cases))
+        run.add_case(["wmap", m, ps, ws], True)
+        run.count("wmap_" + style)
+        if w_oracle(obs, ws):
+            if len(cases) not in impl_fail:
+                impl_fail.append(len(cases))
+        cases.append((m, ps, ws, E, q, obs))
+        if all(math.isfinite(x) for x in flat):
+            terms.append(f"mkw {q_m7(m)} {coq_list([q_v7(p) for p in ps])} {coq_list([qz(Fraction(float(w))) for w in ws])} {qz(W_TOL)} "
+                         f"{q_v7(obs['mu_in'])} {q_m7(obs['cov_in'])} {q_v7(obs['mu_part'])} {q_m7(obs['cov_part'])} "
+                         f"{q_v7(obs['mu_param'])} {q_m7(obs['cov_param'])}")
+        else:
+            terms.append(None)
+    if cases:
+        run.sample({"kind": "wmap", "map": cases[0][0], "particles": cases[0][1], "survival": cases[0][2]})
+    idx = [i for i, t in enumerate(terms) if t is not None]
+    failing = common.run_shards(PID, "wmaps", PRE_W, [terms[i] for i in idx], "c06w_check")
+    failing = [idx[i] for i in failing]
+    run.cov["traces_validated_against_impl"] += len(idx)
+    return cases, failing, impl_fail
+
+
 # ---------------------------------------------------------------- real layer: every linear class, random segments (float64)
-def gen_real_beam(rng, n=None, energy=None):
-    """3-8 particles, correlated / off-axis / chirped, all survival 1"""
+def gen_real_beam(rng, n=None, energy=None, weighted=None):
+    """3-8 particles, correlated / off-axis / chirped; survival probabilities 1 (two thirds of the beams) or in (0, 1]"""
     n = n or rng.choice([3, 4, 5, 6, 7, 8])
     b = realgen.gen_particle_beam(rng, n=n, energy=energy, scale=rng.choice([1e-4, 1e-3]), delta_scale=rng.choice([1e-4, 1e-3, 1e-2]))
     b["survival"] = [1.0] * n
+    if weighted is None:
+        weighted = rng.random() < 0.34
+    if weighted:
+        b["survival"] = [rng.choice([1.0, 0.5, 0.25, round(0.05 + 0.95 * rng.random(), 6)]) for _ in range(n)]
     b["charges"] = [rng.choice([1e-12, 2e-12, 0.0]) for _ in range(n)]
     off = [rng.choice([0.0, 0.0, 1e-3, -2e-3]) for _ in range(6)]
     chirp = rng.choice([0.0, 0.0, 5.0, -20.0])
@@ -471,7 +563,7 @@ def cavity_goals(run, n_cases):
             continue
         cav = cheetah.Cavity(length=torch.tensor(L, dtype=DT), voltage=torch.tensor(V, dtype=DT), phase=torch.tensor(phase, dtype=DT),
                              frequency=torch.tensor(f, dtype=DT), dtype=DT)
-        beam = gen_real_beam(run.rng, n=run.rng.choice([3, 4]), energy=E)
+        beam = gen_real_beam(run.rng, n=run.rng.choice([3, 4]), energy=E, weighted=False)   # Beam/MomCavity.v is stated for survival 1
         for p in beam["particles"]:
             p[4] = round(p[4] * 5, 9)
         pb = realgen.build_beam(beam)
@@ -573,6 +665,8 @@ def main(tier, replay=None):
                        "CustomTransferMap, Marker; nested) and dyadic CustomTransferMaps x 3-8 integer/dyadic particles (correlated, off-axis, "
                        "chirped; built so that all moments are exactly representable): both beam types tracked through the real code, all 7 means "
                        "and 49 second moments compared exactly with each other and with vm_compute of the Coq model over Q/Z; "
+                       "(weighted) dyadic maps x particles x survival probabilities in [0,1] (dyadic, some lost, uniform, random): cheetah's survival-weighted "
+                       "getters / unbiased_weighted_covariance before and after tracking and the tracked ParameterBeam vs the exact Coq model over Q at 2^-30 (1+|a|+|b|); "
                        "(real) every linear-method class and random segments, float64, 6 means + 21 second moments at 1e-9 of their scale, "
                        "energy/charge exact, symmetric + PSD; (cavity) _track_beam model vs code via interval. Non-trivial = a non-identity map; "
                        "distinct by full content.")
@@ -583,6 +677,8 @@ def main(tier, replay=None):
         run.notes.append(run.proof_problem)
     ok_aux, log = common.coq_build("theories/Beam/MomCavityCorr.vo")
     ok_aux2, log2 = common.coq_build("theories/Beam/MomQ.vo")
+    ok_aux3, log3 = common.coq_build("theories/Beam/MomWQ.vo")
+    ok_aux2, log2 = ok_aux2 and ok_aux3, log2 + log3
     if not (ok_aux and ok_aux2):
         proof_ok = False
         run.proof_problem = "coq build of the correspondence checkers failed: " + (log + log2)[-1200:]
@@ -593,12 +689,13 @@ def main(tier, replay=None):
     tcases, tfail, timpl = exact_trees(run, 600 if thorough else 120)
     t1 = time.time()
     qcases, qfail, qimpl = exact_qmaps(run, 400 if thorough else 80)
+    wcases, wfail, wimpl = exact_wmaps(run, 300 if thorough else 60)
     t2 = time.time()
     bad_real = real_layer(run, 40 if thorough else 6, 600 if thorough else 60)
     t3 = time.time()
     goals, meta, cfail, cerrs, cav_py_bad = cavity_goals(run, 150 if thorough else 14)
     t4 = time.time()
-    run.cov["stage_seconds"] = {"proof": round(t0 - run.t0, 1), "trees": round(t1 - t0, 1), "qmaps": round(t2 - t1, 1),
+    run.cov["stage_seconds"] = {"proof": round(t0 - run.t0, 1), "trees": round(t1 - t0, 1), "qmaps+wmaps": round(t2 - t1, 1),
                                 "real": round(t3 - t2, 1), "cavity": round(t4 - t3, 1)}
     replay_known(run)
     run.cov["tested_only"] = ["real element classes and segments: moments of tracked particles vs tracked ParameterBeam in float64 (1e-9 of scale); "
@@ -614,11 +711,21 @@ def main(tier, replay=None):
         m, ps, E, q, obs = qcases[qimpl[0]]
         run.violation({"kind": "dyadic_map", "map": m, "particles": ps, "E": E, "charges": q, "observed": obs, "differs": q_oracle(obs),
                        "relation": "moments(track(ParticleBeam)) == track(ParameterBeam(moments))"})
+    elif wimpl:
+        m, ps, ws, E, q, obs = wcases[wimpl[0]]
+        run.violation({"kind": "weighted_dyadic_map", "map": m, "particles": ps, "survival": ws, "E": E, "charges": q, "observed": obs,
+                       "differs": w_oracle(obs, ws) or ["non-finite moments"],
+                       "relation": "survival-weighted moments(track(ParticleBeam)) == track(ParameterBeam(weighted moments))"})
     elif bad_real:
         run.violation(dict(shrink_real(bad_real[0]), relation="moments(track(ParticleBeam)) == track(ParameterBeam(moments)), energy/charge equal, cov symmetric PSD"))
     elif cav_py_bad:
         run.violation(dict(cav_py_bad[0], broken="Cavity._track_beam(ParameterBeam): entries outside cov[4:6,4:6] are not tm cov tm^T, cov[5,5] not kept, "
                            "or energies differ"), no_input=False)
+    elif wfail:
+        m, ps, ws, E, q, obs = wcases[wfail[0]]
+        run.violation({"kind": "weighted_dyadic_map", "map": m, "particles": ps, "survival": ws, "E": E, "charges": q, "observed": obs,
+                       "broken": "Coq model Beam/WMoments.v (MomWQ checker) disagrees with the implementation's survival-weighted statistics on this case"},
+                      no_input=True)
     elif tfail or qfail:
         if tfail:
             tree, ps, E, q, obs = tcases[tfail[0]]
@@ -646,6 +753,9 @@ def do_replay(run, path):
     elif kind == "dyadic_map":
         obs = observe_q(r["map"], r["particles"], r["E"], r["charges"])
         bad = q_oracle(obs)
+    elif kind == "weighted_dyadic_map":
+        obs = observe_w(r["map"], r["particles"], r["survival"], r["E"], r["charges"])
+        bad = w_oracle(obs, r["survival"])
     elif kind in ("real_element", "real_segment"):
         diffs, psd, _ = run_real_case(r["spec"], r["beam"])
         known, bad = classify(r["spec"], [] if diffs == "unspecified" else diffs, psd)
